@@ -110,7 +110,7 @@ func runC19(cfg Config, args []string) int {
 		return Finish(rep)
 	}
 	procs := sim.Workers()
-	perProc := cfg.N(30000, 1500000)
+	perProc := cfg.N(50000, 1500000)
 	results, _ := sim.ParMap(procs, procs, nil, func(j int) *c19proc {
 		p := &c19proc{seed: uint64(cfg.Seed)*1000003 + uint64(j) + 1}
 		p.dir = filepath.Join(env.Scratch, fmt.Sprintf("ms%d", j))
